@@ -208,7 +208,7 @@ def prepare(n, edges, order, scheme):
     return doc, expect, resolved, on_cycle, desc, feats
 
 
-LEAF_KINDS = {"string": {None: "str", "date-time": "datetime", "date": "date", "uuid": "uuid", "byte": "bytes", "time": "time"},
+LEAF_KINDS = {"string": {None: "str", "date-time": "datetime", "date": "date", "uuid": "uuid", "byte": "bytes", "binary": "bytes", "time": "time"},
               "integer": {None: "int"}, "number": {None: "float"}, "boolean": {None: "bool"}}
 
 
@@ -277,7 +277,8 @@ def check_shapes(ctx: Ctx, chunk: list, n: int) -> None:
         name, key = f"S{i}", f"p{i}x"
         ex = shapes.expr(sh)
         feats = shapes.features(sh) + ["shapes"]
-        case = {"phase": "shapes", "shape": list(sh), "index": i, "schema": d.doc["components"]["schemas"][name]}
+        case = {"phase": "shapes", "shape": list(sh), "index": i, "schema": d.doc["components"]["schemas"][name],
+                "chunk": [[j, list(s2)] for j, s2 in chunk]}    # the other models of the same document (a replay needs them)
         rec.case({"shape": ex}, nontrivial=len(sh) > 1)
         rec.count("shape_models_checked")
         rec.seen("shapes_checked", ex)
@@ -348,7 +349,7 @@ def replay(ctx: Ctx, file: dict) -> None:
 
     ldr.validate_spec = None
     if file["case"].get("phase") == "shapes":
-        check_shapes(ctx, [(file["case"]["index"], tuple(file["case"]["shape"]))], 1)
+        check_shapes(ctx, [(j, tuple(s2)) for j, s2 in file["case"].get("chunk") or [[file["case"]["index"], file["case"]["shape"]]]], 1)
         return
     d = file["case"]["desc"]
     edges = {}
